@@ -161,12 +161,16 @@ func monC01(c *Case, tr *Trace) []Violation {
 			}
 		}
 		cgot := 0
+		toldOK := false
 		for _, o := range tr.Ops {
 			if o.RPC != i || o.Side != "caller" || o.Pending() {
 				continue
 			}
 			switch o.Kind {
 			case "recv":
+				if o.Code == CodeEOF {
+					toldOK = true
+				}
 				switch o.Code {
 				case CodeNil:
 					if o.Payload == nil {
@@ -182,6 +186,11 @@ func monC01(c *Case, tr *Trace) []Violation {
 					if cgot < hsOK {
 						add("lost_message", o.End, "rpc %d: caller saw OK after %d messages; handler sent %d successfully", i, cgot, hsOK)
 					}
+				}
+			case "recv_again":
+				// (the caller had been told the RPC ended; whatever it is handed now was never part of the sequence)
+				if o.Code == CodeNil && toldOK {
+					add("message_after_end_of_rpc", o.End, "rpc %d: a Recv after the caller had been told the RPC ended normally returned a message and a nil error (the caller had obtained %d messages, the handler submitted %d)", i, cgot, hsStarted)
 				}
 			case "invoke":
 				if o.Code == CodeNil {
@@ -658,6 +667,40 @@ func monC14(c *Case, tr *Trace) []Violation {
 					}
 					if e.closeEmit >= 0 && e.closeEmit < sn.Step {
 						add("server_table_stale_entry", sn.Step, "stream %d still in the server table at step %d although its close_stream was emitted at step %d", id, sn.Step, e.closeEmit)
+					}
+				}
+			}
+		}
+		// an RPC is also over, as far as the calling end is concerned, once its caller has been given the terminal result
+		// (whatever the peer goes on doing): at a quiescent point after that the calling end holds no table entry for it
+		if (sn.Phase == "drain1" || sn.Phase == "drain2" || sn.Phase == "idle") && sn.Parked == 0 {
+			for i := range c.RPCs {
+				k, ok := ix.keyOf[i]
+				if !ok {
+					continue
+				}
+				told := -1
+				for _, o := range tr.Ops {
+					if o.RPC != i || o.Side != "caller" || o.Pending() {
+						continue
+					}
+					if (o.Kind == "recv" && o.Code != CodeNil) || o.Kind == "invoke" {
+						if told < 0 || o.End < told {
+							told = o.End
+						}
+					}
+				}
+				if told < 0 || told >= sn.Step {
+					continue
+				}
+				for ti, tab := range sn.ClientTables {
+					if carrierOfTunnel(ti) != k.carrier {
+						continue
+					}
+					for _, id := range tab {
+						if id == k.id {
+							add("client_table_entry_after_call_returned", sn.Step, "tunnel %d: stream %d (rpc %d) is still in the client table at the quiescent step %d although its caller was given the RPC's terminal result at step %d", ti, id, i, sn.Step, told)
+						}
 					}
 				}
 			}
